@@ -159,6 +159,8 @@ static void *resumer(void *arg)
 	return NULL;
 }
 
+static _Atomic int g_pb_window;   /* a drainer holding a pending-barrier reservation is about to unlock */
+static unsigned g_hold_us;
 static void susp_pair(int depth)
 {
 	int w = atomic_fetch_add(&g_nwin, 1);
@@ -168,7 +170,7 @@ static void susp_pair(int depth)
 		uint64_t s = vrt_api("SuspRet", g_obj, -1, w, 0);
 		if (d == 0 && w < MAXW) { g_win[w].own = 0; g_win[w].s1 = s; g_win[w].s2 = 0; }
 	}
-	if (depth == 1) usleep((unsigned)(vrt_rand() % 300));
+	if (depth == 1) usleep(g_hold_us ? g_hold_us : (unsigned)(vrt_rand() % 300));
 	for (int d = 0; d < depth; d++) {
 		uint64_t s = vrt_api("ResCall", g_obj, -1, w, 0);
 		if (d == 0 && w < MAXW) g_win[w].s2 = s;   /* the queue stays suspended at least until the first resume call */
@@ -191,7 +193,22 @@ static int storm_depth(void)
 static void storm_steer(struct dispatch_verif_site_s *s, const volatile void *a, int obj)
 {
 	(void)a; (void)obj;
-	if (strstr(s->dvs_func, "_slow") && strstr(s->dvs_expr, "dq_state") && (vrt_rand() & 1)) usleep(300 + (unsigned)(vrt_rand() % 2500));
+	if (!strstr(s->dvs_expr, "dq_state")) return;
+	if (g_susp && a && s->dvs_op[0] != 'l' && !strcmp(s->dvs_func, "_dispatch_queue_drain_try_unlock") &&
+			(*(const volatile uint64_t *)a & DISPATCH_QUEUE_PENDING_BARRIER) && (vrt_rand() & 1)) {
+		/* ask the clients for a push and a suspension inside this window (see client()) */
+		atomic_store(&g_pb_window, 2);
+		usleep(1500);
+		return;
+	}
+	if (g_susp == 2 && strstr(s->dvs_func, "_slow") && (vrt_rand() & 1)) { usleep(300 + (unsigned)(vrt_rand() % 2500)); return; }
+	/* the window between a drainer's decision to leave and its unlock is where DIRTY, suspensions and late pushes
+	 * land (C01's no-stranding argument, finding F3): hold a drainer there now and then */
+	if (s->dvs_op[0] != 'l' && (vrt_rand() % 6) == 0 &&
+			(!strcmp(s->dvs_func, "_dispatch_queue_drain_try_unlock") || !strcmp(s->dvs_func, "_dispatch_queue_invoke_finish") ||
+			 !strcmp(s->dvs_func, "_dispatch_lane_class_barrier_complete") || !strcmp(s->dvs_func, "_dispatch_lane_drain_non_barriers") ||
+			 !strcmp(s->dvs_func, "_dispatch_queue_try_upgrade_full_width")))
+		usleep(100 + (unsigned)(vrt_rand() % 1500));
 }
 
 static void *client(void *arg)
@@ -204,6 +221,13 @@ static void *client(void *arg)
 			unsigned k = (unsigned)(vrt_rand() % 100);
 			int body = (vrt_rand() % 4 == 0) ? B_SPIN : B_NONE;
 			item_t *it = NULL;
+			if (g_susp && atomic_load(&g_pb_window) > 0 && atomic_fetch_sub(&g_pb_window, 1) > 0) {
+				it = new_item(K_ASYNC, (int)me, B_NONE);
+				if (!it) break;
+				submit(it);
+				g_hold_us = 1200; susp_pair(1); g_hold_us = 0;
+				continue;
+			}
 			if (g_susp == 2 && vrt_rand() % 100 < 40) { susp_pair(storm_depth()); continue; }
 			if (g_W == 1) {
 				if (k < 26) it = new_item(K_ASYNC, (int)me, body);
@@ -401,7 +425,7 @@ int main(int argc, char **argv)
 	vrt_add_class("dq_items_head", 2);
 	vrt_add_class("do_next", 2);
 	vrt_set_hang_seconds(25);
-	if (g_susp == 2) vrt_set_steer(storm_steer);
+	if (perturb > 0) vrt_set_steer(storm_steer);
 	(void)vrt_tid();
 	pthread_barrier_init(&g_bar, NULL, (unsigned)NT + 1);
 	pthread_t th[16], rth;
